@@ -1,5 +1,6 @@
 import Driver.Util
 import Driver.C14
+import Driver.Crypto
 
 open Driver
 
@@ -10,6 +11,7 @@ def dispatch (line : String) : String :=
   | op :: args =>
     let r : Option String :=
       if op.startsWith "kt." then C14.handle op args
+      else if op.startsWith "cr." then Crypto.handle op args
       else none
     match r with
     | some s => s
